@@ -1167,3 +1167,59 @@ func TestC19Widths(t *testing.T) {
 }
 
 func init() { reg("C19.width", checkC19Width) }
+
+// ---- first and last of a map ---------------------------------------------------------------------------------
+
+type C19MapEndsCase struct {
+	M *E `json:"m"`
+}
+
+// checkC19MapEnds: first and last of a map are the first and the last value a for loop over it
+// observes, and length is their number.
+func checkC19MapEnds(c C19MapEndsCase) error {
+	ctx := map[string]interface{}{"m": zooGo(c.M, 0)}
+	loop := render1("{% for v in m %}{{ v }}\x1f{% endfor %}", ctx)
+	if loop.Failed() {
+		return fmt.Errorf("for loop over %s failed: %v", PrintE2(c.M), loop)
+	}
+	seq := strings.Split(strings.TrimSuffix(loop.Out, "\x1f"), "\x1f")
+	if loop.Out == "" {
+		seq = nil
+	}
+	r := render1("{{ m|first }}\x1f{{ m|last }}\x1f{{ m|length }}", ctx)
+	if r.Failed() {
+		return fmt.Errorf("first / last / length of %s failed: %v (a for loop observes %d values)", PrintE2(c.M), r, len(seq))
+	}
+	got := strings.Split(r.Out, "\x1f")
+	wantFirst, wantLast := "", ""
+	if len(seq) > 0 {
+		wantFirst, wantLast = seq[0], seq[len(seq)-1]
+	}
+	if len(got) != 3 || got[0] != wantFirst || got[1] != wantLast || got[2] != fmt.Sprint(len(seq)) {
+		return fmt.Errorf("m = %s: first, last, length = %q, a for loop observes %q", PrintE2(c.M), got, seq)
+	}
+	return nil
+}
+
+func TestC19MapEnds(t *testing.T) {
+	r := NewRec(t, "C19", "exhaustive: first, last and length of 14 maps (untyped, map[string]int, map[string]string, map[int]string, map[int64]string, interface-keyed, empty, one entry, keys that sort differently as text and as numbers) against what a for loop over the same map observes; all cases non-trivial")
+	defer r.Flush()
+	r.SetExhaustive()
+	ks := []string{"b", "a", "10", "9", "zz"}
+	vs := []*E{Int(1), Int(2), Int(3), Int(4), Int(5)}
+	svs := []*E{Str("v1"), Str("v2"), Str("v3"), Str("v4"), Str("v5")}
+	var maps []*E
+	for _, n := range []int{0, 1, 2, 5} {
+		maps = append(maps, Hash(ks[:n], vs[:n]), ZT(Hash(ks[:n], vs[:n]), "map[string]int"), ZT(Hash(ks[:n], svs[:n]), "map[string]string"))
+	}
+	maps = append(maps, ZT(Hash(ks, svs), "map[int]string"), ZT(Hash(ks, svs), "map[int64]string"), ZT(Hash(ks, vs), "map[iface]"), ZT(Hash(ks, vs), "map[mixed]"))
+	for _, m := range maps {
+		c := C19MapEndsCase{M: m}
+		r.Case(PrintE2(m), true, PrintE2(m))
+		if err := checkC19MapEnds(c); err != nil {
+			r.FailEnumKey(t, "C19.mapends", m.M, c, err)
+		}
+	}
+}
+
+func init() { reg("C19.mapends", checkC19MapEnds) }
